@@ -93,11 +93,13 @@ func (c *Client) ReadBytesFromClient() ([]byte, error) {
 
 // WriteBytesToClient will write a subscription message to the websocket client.
 func (c *Client) WriteBytesToClient(message []byte) error {
+	// The state is checked under the write lock: a close frame is written and the state changed under
+	// the same lock, so no data frame can follow a close frame.
+	c.writeMu.Lock()
 	if !c.IsConnected() {
+		c.writeMu.Unlock()
 		return subscription.ErrTransportClientClosedConnection
 	}
-
-	c.writeMu.Lock()
 	err := wsutil.WriteServerMessage(c.clientConn, ws.OpText, message)
 	c.writeMu.Unlock()
 	if errors.Is(err, io.ErrClosedPipe) {
@@ -162,15 +164,19 @@ func (c *Client) DisconnectWithReason(reason any) error {
 	return c.Disconnect()
 }
 
+// writeFrame and writeCompiledFrame write a close frame: it is the last frame of the connection,
+// the client counts as closed before the write lock is released.
 func (c *Client) writeFrame(frame ws.Frame) error {
 	c.writeMu.Lock()
 	defer c.writeMu.Unlock()
+	defer c.changeConnectionStateToClosed()
 	return ws.WriteFrame(c.clientConn, frame)
 }
 
 func (c *Client) writeCompiledFrame(compiledFrame []byte) error {
 	c.writeMu.Lock()
 	defer c.writeMu.Unlock()
+	defer c.changeConnectionStateToClosed()
 	_, err := c.clientConn.Write(compiledFrame)
 	return err
 }
